@@ -443,7 +443,7 @@ func opWfnScan(r *hx.Run, old string, s srcV) {
 		return "ok " + hx.Hex(b)
 	})
 	if out == "panic" {
-		failW(r, "", fmt.Sprintf("cpe.WFN.Scan(%T) panics on %s", s.v, s.wire))
+		failW(r, "", fmt.Sprintf("cpe.WFN.Scan(%T) panics on %q (%s)", s.v, textOf(s.v), s.wire))
 	}
 	if str, ok := s.v.(string); ok {
 		// UnmarshalText is the same decoder as Scan(string), with the same care for its receiver
@@ -486,10 +486,15 @@ func opWfnScan(r *hx.Run, old string, s srcV) {
 		}
 		r.Op("wfn-scan - "+s.wire, o3, false)
 		for name, f := range map[string][2]func(string) (cpe.WFN, error){"UnbindFS": {pkgcpe.UnbindFS, cpe.UnbindFS}, "UnbindURI": {pkgcpe.UnbindURI, cpe.UnbindURI}} {
-			a, ea := f[0](str)
-			b, eb := f[1](str)
-			if a != b || (ea == nil) != (eb == nil) {
-				failW(r, "", fmt.Sprintf("pkg/cpe.%s(%q) differs from the toolkit function it re-exports", name, str))
+			if hx.Guard(func() string {
+				a, ea := f[0](str)
+				b, eb := f[1](str)
+				if a != b || (ea == nil) != (eb == nil) {
+					failW(r, "", fmt.Sprintf("pkg/cpe.%s(%q) differs from the toolkit function it re-exports", name, str))
+				}
+				return ""
+			}) == "panic" {
+				failW(r, "", fmt.Sprintf("cpe.%s panics on %q", name, str))
 			}
 		}
 	}
